@@ -176,6 +176,8 @@ class Check:
         for k in c['queries']:
             c['queries'][k] += q.get(k, 0)
         c['solver_time_s'] += r.get('solver_time_s', 0.0)
+        c['mir_statements_executed'] = c.get('mir_statements_executed', 0) + r.get('steps', 0)
+        c['symbolic_path_states'] = c.get('symbolic_path_states', 0) + r.get('arms', 0)
         c['evaluations'] += r.get('evaluations', 0)
         c['obligations'] += r.get('obligations', 0)
         c['discharged'] += r.get('discharged', 0)
@@ -290,6 +292,12 @@ class Check:
         self.cov['solver_versions'] = solver_versions()
         if explanation:
             self.cov['explanation'] = explanation
+        if self.cov.get('mir_statements_executed'):
+            # bounded symbolic execution seen as a state space: states = symbolic path states (branch arms explored and
+            # merged, plus one initial state per run), transitions = MIR statements executed symbolically
+            self.cov['states'] = self.cov['symbolic_path_states']
+            self.cov['transitions'] = self.cov['mir_statements_executed']
+            self.cov['traces_validated_against_impl'] = self.cov['translator_validation']['concrete_cases']
         code = EXIT_OK
         if self.inconclusive:
             code = EXIT_INCONCLUSIVE
@@ -346,7 +354,7 @@ def solver_versions():
 # ---------------------------------------------------------------- helpers for jobs
 
 def interp_stats(I):
-    return {'functions': dict(I.fn_counts), 'lib': dict(I.lib_used)}
+    return {'functions': dict(I.fn_counts), 'lib': dict(I.lib_used), 'steps': I.steps, 'arms': I.arms + 1}
 
 
 def eval_search_cex(pending, assumptions, n, seed=0):
